@@ -399,6 +399,7 @@ def run(ctx: Ctx):
     _log_prob_input_contract(ctx, dist, lp, rel)
     _support_table(ctx, rel)
     _walk_table(ctx)
+    col.count("advance_table_decided", int(_advance_table(ctx, rel)))
     # every scoring call of the wrapper starts the model from a fresh copy of the initial state (siblings agree)
     lmc = [c for c in own_calls(lp.node) if u(c.func) == "self.random_walk.lm"]
     col.ob("G1", "S4", f"{rel}::SequentialLanguageModelDistribution.log_prob::lm(hist, initial_state.copy())",
@@ -676,7 +677,7 @@ def _greedy_table(ctx: Ctx, g, rel: str) -> bool:
                     for blank in (BL, BL - V):
                         def leaf(x, env):
                             if isinstance(x, ast.Call) and isinstance(x.func, ast.Attribute) and x.func.attr == "log_softmax":
-                                return holder["it"].eval(x.func.value if call_name(x).split(".")[0] != "torch" else x.args[0], env)
+                                return _surrogate_log_softmax(holder["it"], x, env)  # (exact and axis-sensitive: scores minus their sum along the axis)
                             return None
                         holder = {}
                         it = Interp(leaf=leaf, tensors=True)
@@ -690,7 +691,7 @@ def _greedy_table(ctx: Ctx, g, rel: str) -> bool:
                         want_scores, want_paths = [], []
                         for n_ in range(3):
                             L_ = lens[n_] if use_lens else 5
-                            mx = [sc[n_, t_, best[n_][t_]] for t_ in range(L_)]
+                            mx = [sc[n_, t_, best[n_][t_]] - (Fr(0) if probs else sum(sc[n_, t_, :].tolist(), Fr(0))) for t_ in range(L_)]
                             tot = Fr(1) if probs else Fr(0)
                             for z in mx:
                                 tot = tot * z if probs else tot + z
@@ -927,6 +928,66 @@ def _seqlp_packed_table(ctx: Ctx, kp, rel: str) -> bool:
             f"{'(batch, steps)' if bad[2] else '(steps, batch)'}, dim={bad[3]}: the packed kernel computes {_show(bad[4])}; documented (sum of the "
             f"scores of each sequence's tokens over its own length, out-of-vocabulary tokens contributing 0): {_show(bad[5])}") if bad else "",
            rel, kp.line, sample=dict(rows=n_rows))
+    return True
+
+
+def _advance_table(ctx: Ctx, rel: str) -> bool:
+    """S1 by value, the step itself: `random_walk_advance` interpreted over exact values (sa/interp.py + sa/teval.py; the draw is a leaf
+    that hands out scripted tokens) for 3 paths over 4 token types with histories of 0, 2 and 3 rows and lengths omitted, full, ragged WITH
+    a full path (the buffer has to grow) and ragged without one: afterwards path n holds its old tokens below its old length and the drawn
+    token AT its old length (`y_next[y_prev_lens[n], n]`), the buffer has grown by one row exactly when some path was full, and the new
+    score is the old one plus the score of the drawn token."""
+    import numpy as np
+    from fractions import Fraction as Fr
+    from sa.interp import Interp
+    from sa.inteval import NotEvaluable
+    from sa.teval import frac_array
+    col, pkg = ctx.col, ctx.pkg
+    f = pkg.func(f"{MOD}::random_walk_advance")
+    where = f"{rel}::{f.qualname}"
+    names = [a.arg for a in f.node.args.args]
+    if len(names) != 4:
+        return False
+    N, V = 3, 4
+    draw = [1, 3, 2]
+    lp_t = frac_array([[Fr(-(3 + 5 * n_ + 2 * v_), 7) for v_ in range(V)] for n_ in range(N)])
+    lp_prev = frac_array([Fr(-n_ - 1, 3) for n_ in range(N)])
+    bad, rows = None, 0
+    try:
+        for S, lens_opts in ((0, (None,)), (2, (None, [2, 2, 2], [2, 0, 1], [1, 0, 1])), (3, (None, [3, 1, 0], [2, 0, 1], [3, 3, 3]))):
+            y_prev = np.array([[10 * t_ + n_ + 1 for n_ in range(N)] for t_ in range(S)], dtype=object).reshape(S, N)
+            for lens in lens_opts:
+                def leaf(x, env):
+                    if isinstance(x, ast.Call) and call_name(x).endswith("multinomial"):
+                        return frac_array([[d_] for d_ in draw])
+                    return None
+                env = dict(zip(names, (lp_t, lp_prev, frac_array(y_prev.tolist()) if S else np.empty((0, N), dtype=object), frac_array(lens) if lens is not None else None)))
+                kind, got = Interp(leaf=leaf, tensors=True).run(f.node, env)
+                rows += 1
+                eff = lens if lens is not None else [S] * N
+                want_rows = S + 1 if max(eff) >= S else S
+                problem = None
+                if kind != "return" or not isinstance(got, tuple) or len(got) != 2:
+                    problem = f"{kind}: {str(got)[:80]}"
+                else:
+                    y, lp = np.asarray(got[0], dtype=object), np.asarray(got[1], dtype=object)
+                    if y.shape != (want_rows, N):
+                        problem = f"the paths come back with shape {y.shape}; with lengths {eff} in a buffer of {S} rows it is {(want_rows, N)}"
+                    else:
+                        for n_ in range(N):
+                            if int(y[eff[n_], n_]) != draw[n_] or [int(v_) for v_ in y[:eff[n_], n_]] != [int(v_) for v_ in y_prev[:eff[n_], n_]]:
+                                problem = problem or (f"path {n_} (old length {eff[n_]}) comes back as {[int(v_) for v_ in y[:eff[n_] + 1, n_]]}; it is its old tokens "
+                                                      f"{[int(v_) for v_ in y_prev[:eff[n_], n_]]} followed by the drawn token {draw[n_]}")
+                            if lp.shape != (N,) or lp[n_] != lp_prev[n_] + lp_t[n_, draw[n_]]:
+                                problem = problem or f"the score of path {n_} is {lp[n_] if lp.shape == (N,) else lp.shape}, not the old score plus the drawn token's"
+                if problem and bad is None:
+                    bad = (S, lens, problem)
+    except NotEvaluable:
+        return False
+    col.count("advance_table_rows", rows)
+    col.ob("G12", "S1", f"{where}::advance-table", bad is None,
+           (f"history of {bad[0]} row(s), lengths {bad[1] if bad[1] is not None else 'omitted'}, drawn tokens {draw}: {bad[2]}") if bad else "", rel, f.line,
+           sample=dict(rows=rows))
     return True
 
 
